@@ -49,11 +49,13 @@ def mk(variant):
     nout = (variant >> 2) % 3
     vin = [CMutableTxIn(CMutableOutPoint(bytes([i + 1]) * 32, i), CScript([OP_1]), 0xffffffff - i) for i in range(nin)]
     vout = [CMutableTxOut(i + 1, CScript([OP_1])) for i in range(nout)]
+    # (version 2 mostly; the wire range of the version field is signed: -1, -2^31 and 0 are transactions too)
+    ver = [2, 2, 1, -1, -2 ** 31, 0, 2 ** 31 - 1, 2][(variant >> 1) % 8]
     if variant & 16:
         wit = CTxWitness([CTxInWitness(CScriptWitness([b'w'])) for _ in range(nin)])
-        m = CMutableTransaction(vin, vout, 5, 2, wit)
+        m = CMutableTransaction(vin, vout, 5, ver, wit)
     else:
-        m = CMutableTransaction(vin, vout, 5, 2)
+        m = CMutableTransaction(vin, vout, 5, ver)
     return (m if variant & 32 else CTransaction.from_tx(m)), nin
 
 
@@ -228,6 +230,29 @@ def t_limits(ctx):
                     if k % ctx.nshards == ctx.shard:
                         ctx.run({'fb': fb, 'variant': k % 64, 'mode': mode, 'idxsel': 0, 'a': '51', 'b': (e + bytes.fromhex(f)).hex()})
                         ctx.run({'fb': fb, 'variant': k % 64, 'mode': 0, 'idxsel': 0, 'a': e.hex(), 'b': f})
+    # signature checks on well-formed DER whose numbers are out of range (0, n, n+1, 2^256-1), negative or padded, against
+    # well-formed and malformed keys, single and in multisig, also behind an executed CODESEPARATOR: failures, never crashes
+    n_ = 0xFFFFFFFFFFFFFFFFFFFFFFFFFFFFFFFEBAAEDCE6AF48A03BBFD25E8CD0364141
+
+    def der_(r, s_):
+        def i_(v):
+            b = v.to_bytes((v.bit_length() + 7) // 8 or 1, 'big')
+            return b'\x02' + bytes([len(b) + (b[0] >> 7)]) + (b'\x00' if b[0] >> 7 else b'') + b
+        body = i_(r) + i_(s_)
+        return b'\x30' + bytes([len(body)]) + body
+    sigs = [der_(r, s_) + b'\x01' for r in (0, 1, n_, n_ + 1, 2 ** 256 - 1) for s_ in (0, 1, n_ - 1, n_, 2 ** 255)] + \
+        [b'\x30\x06\x02\x01\x80\x02\x01\x01\x01', b'\x30\x07\x02\x02\x00\x01\x02\x01\x01\x01', b'\x30\x00\x01', b'\x01']
+    keys = [b'\x02' + b'\x79\xbe\x66\x7e\xf9\xdc\xbb\xac\x55\xa0\x62\x95\xce\x87\x0b\x07\x02\x9b\xfc\xdb\x2d\xce\x28\xd9\x59\xf2\x81\x5b\x16\xf8\x17\x98',
+            b'\x02' + bytes(32), b'\x04' + bytes(64), b'', b'\x05' + b'\x01' * 32]
+    P_ = S.push_enc
+    for sg in sigs:
+        for ky in keys:
+            for spk_ in (P_(ky) + b'\xac', b'\x61\xab' + P_(ky) + b'\xac', b'\x51' + P_(ky) + b'\x51\xae', b'\x61\xab\x51' + P_(ky) + b'\x51\xae',
+                         b'\x00\x63\xab\x68\x51' + P_(ky) + P_(ky) + b'\x52\xaf\x51'):
+                k += 1
+                if k % ctx.nshards == ctx.shard:
+                    ms = b'\xae' in spk_[-2:] or b'\xaf' in spk_[-3:]
+                    ctx.run({'fb': k % 1024, 'variant': k % 64, 'mode': 0, 'idxsel': 0, 'a': ((b'\x00' if ms else b'') + P_(sg)).hex(), 'b': spk_.hex()})
     for items in (998, 999, 1000, 1001):
         for grow in ('76', '6e', '6f', '7d', '00', '51', '6b', '82', '74'):        # DUP 2DUP 3DUP TUCK push push TOALT SIZE DEPTH
             for f in fails:
